@@ -241,6 +241,17 @@ impl Monitor for C11 {
     fn run_case(&mut self, k: u64, ctx: &mut Ctx) {
         let mut r = Rng::derive(self.seed, 0x1101, k, 0);
         let max_plain = self.tier.pick(20_000, 200_000);
+        if k == 13 || k == 23 {
+            // scale: a zlib member with about 137 / 35 MiB of plaintext (beyond / below the crate's 128 MiB constant)
+            if let Some(st) = streams::scale_stream(&mut r, (k - 13) / 10) {
+                let mut f = wrap::junk_clean(&mut r, 64);
+                f.extend(wrap::zlib_wrap(&st.bytes, &st.plain, 0x9C));
+                f.extend(wrap::junk_clean(&mut r, 32));
+                ctx.count("files_with_a_member_of_many_MiB");
+                Self::judge(&f, &format!("zlib member: {}", st.recipe), &mut r, ctx, false);
+            }
+            return;
+        }
         let g = match k % 10 {
             7 if k % 4000 == 7 => {
                 // scale: an incompressible file of several MiB up to tens of MiB (zstd's worst-case expansion,
